@@ -30,6 +30,15 @@ def joinL (sep : Nat) : List (List Byte) → List Byte
   | [t] => t
   | t :: rest => t ++ some sep :: joinL sep rest
 
+/-- `trim`: the value without its leading and trailing chars of the set -/
+def trimL (chars : List Nat) (c : List Nat) : List Nat :=
+  ((c.dropWhile (inSet chars)).reverse.dropWhile (inSet chars)).reverse
+
+/-- the token that starts at `start`: up to the first separator found (`hit`, relative to `start`), else the rest -/
+def tokenL (c : List Nat) (start : Nat) : Option Nat → List Nat
+  | some k => (c.drop start).take k
+  | none => c.drop start
+
 /-- the new value of the target variable; `none` = not specified here (see Props.lean, OPEN) -/
 def newVal (regs : Nat → List Nat) (σ : Nat → List Byte) : Op → Option (List Byte)
   | .ctorEmpty _ => some []
@@ -53,6 +62,15 @@ def newVal (regs : Nat → List Nat) (σ : Nat → List Byte) : Op → Option (L
   | .substr _ w st ln => some (subList (σ w) st ln)
   | .join _ toks sep => some (joinL sep (toks.map (·.map some)))
   | .printf _ f => some ((render f).map some)
+  | .replaceC v a b => some (mapCStr (fun c => if c = a then b else c) (σ v))
+  | .lower v => some (mapCStr toLower (σ v))
+  | .tokenC _ w sep start => (allSome (σ w)).bind fun c =>
+      if 0 ∉ c then some ((if start ≥ c.length then [] else tokenL c start (strchrL (c.drop start) sep)).map some)
+      else none
+  | .tokenS _ w seps start => (allSome (σ w)).bind fun c =>
+      if 0 ∉ c ∧ start ≤ c.length then some ((tokenL c start (strpbrkL (c.drop start) seps)).map some) else none
+  | .trim v chars => (allSome (σ v)).map (fun c => (trimL chars c).map some)
+  | .upper v => some (mapCStr toUpper (σ v))
   | _ => none
 
 def step (regs : Nat → List Nat) (σ : Nat → List Byte) (op : Op) : Option (Nat → List Byte) :=
